@@ -478,10 +478,19 @@ func racePass(r *report.Run) {
 			continue
 		}
 		reports++
-		// the innermost interpreter function of each of the two stacks
+		// the finding is named after the interpreter function(s) that WRITE the racy location (the innermost
+		// interpreter frame of every "Write at" / "Previous write at" stack); the reading side varies from run to run
 		funcs := map[string]bool{}
-		for _, part := range strings.SplitN(b, "Previous", 2) {
-			if m := raceFrame.FindStringSubmatch(part); m != nil {
+		for _, part := range strings.Split(b, "\n\n") {
+			head := strings.ToLower(strings.SplitN(strings.TrimSpace(part), "\n", 2)[0])
+			if strings.Contains(head, "write") {
+				if m := raceFrame.FindStringSubmatch(part); m != nil {
+					funcs[m[1]] = true
+				}
+			}
+		}
+		if len(funcs) == 0 {
+			if m := raceFrame.FindStringSubmatch(b); m != nil {
 				funcs[m[1]] = true
 			}
 		}
@@ -490,10 +499,7 @@ func racePass(r *report.Run) {
 			fl = append(fl, f)
 		}
 		sort.Strings(fl)
-		key := "race-pass: data race in interp." + strings.Join(fl, " / interp.")
-		if funcs["_select"] {
-			key = "race-pass: data race in interp._select" // whatever the other side is: the shared select-case slice
-		}
+		key := "race-pass: racy write in interp." + strings.Join(fl, " / interp.")
 		if !seen[key] {
 			seen[key] = true
 			lines := strings.Split(strings.TrimSpace(b), "\n")
